@@ -259,6 +259,7 @@ class Ctx:
         self.samples = []
         self.diffs = []          # dicts: kind, signature, case, expected, observed
         self.known_hits = {}
+        self.sig_counts = {}
         self.stats = {}
         self.findings = [e for e in load_findings() if e['property'] == prop and e['kind'] == 'finding']
         self.notes = []
@@ -289,6 +290,7 @@ class Ctx:
             if f['signature'] == signature:
                 self.known_hits.setdefault(signature, f['text'])
                 return
+        self.sig_counts[signature] = self.sig_counts.get(signature, 0) + 1
         if len(self.diffs) < 50:
             self.diffs.append(dict(kind=kind, signature=signature, case=case, expected=expected,
                                    observed=observed, what=what))
@@ -372,4 +374,6 @@ def finish(ctx, proof, technique_rule, trusted_base, assumptions, extra_cov=None
             print(f'  proof obligation broken: {name}: {msg[-600:]}')
     for d in ctx.diffs[:5]:
         print(f'  diff[{d["kind"]}] {d["what"]}')
+    if len(ctx.sig_counts) > 1:
+        print('  signatures: ' + ', '.join(f'{k} x{v}' for k, v in sorted(ctx.sig_counts.items(), key=lambda kv: -kv[1])[:25]))
     return exit_code
